@@ -73,6 +73,7 @@ typedef struct { bool has; uint64_t v; } cstl_opt;                       /* opti
 typedef struct { uint64_t first; uint64_t second; } cstl_pair;           /* pair<K,V>, pair<V,size_t>           */
 typedef struct { bool has; cstl_pair v; } cstl_opt_pair;                 /* optional<pair<V,size_t>>            */
 typedef struct { uint64_t first; cstl_opt second; } cstl_pair_kopt;      /* pair<K, optional<V>>                */
+typedef struct { uint64_t first; bool second; } cstl_pair_kb;          /* pair<K,bool> (ut_set)               */
 typedef struct { int64_t _0; uint64_t _1; uint64_t _2; } cstl_tuple3;    /* tuple<ms,K,V> (tlru insert_range)   */
 typedef struct { cstl_iter first; bool second; } cstl_emplace_result;    /* pair<iterator,bool>                 */
 
@@ -86,6 +87,7 @@ static inline uint64_t cstl_opt_value(const cstl_opt *o)
 typedef struct { uint64_t len; uint64_t *data; } cstl_range_k;            /* vector<K>                  */
 typedef struct { uint64_t len; cstl_pair *data; } cstl_range_kv;          /* vector<pair<K,V>>          */
 typedef struct { uint64_t len; cstl_pair_kopt *data; } cstl_range_kopt;   /* vector<pair<K,optional<V>>>*/
+typedef struct { uint64_t len; cstl_pair_kb *data; } cstl_range_kb;       /* vector<pair<K,bool>>       */
 typedef struct { uint64_t len; cstl_tuple3 *data; } cstl_range_t3;        /* vector<tuple<ms,K,V>>      */
 
 /* ---- the output vector of find_range: abstract (size + last element appended) ----------------- */
@@ -97,7 +99,17 @@ typedef struct
     cstl_pair_kopt *sink;   /* native only: where the driver collects the elements (may be NULL)  */
     uint64_t        sink_cap;
 } cstl_outvec;
-static inline void cstl_outvec_ctor(cstl_outvec *o) { o->size = 0; o->reserved = 0; o->sink = 0; o->sink_cap = 0; o->last.first = 0; o->last.second.has = false; o->last.second.v = 0; }
+#ifndef CSTL_CBMC
+cstl_pair_kopt *cstl_native_sink(void);     /* native driver: where to collect appended elements */
+uint64_t        cstl_native_sink_cap(void);
+#endif
+static inline void cstl_outvec_ctor(cstl_outvec *o)
+{
+    o->size = 0; o->reserved = 0; o->sink = 0; o->sink_cap = 0; o->last.first = 0; o->last.second.has = false; o->last.second.v = 0;
+#ifndef CSTL_CBMC
+    o->sink = cstl_native_sink(); o->sink_cap = cstl_native_sink_cap();
+#endif
+}
 static inline void cstl_outvec_reserve(cstl_outvec *o, uint64_t n) { if (n > o->reserved) o->reserved = n; }
 static inline void cstl_outvec_emplace_back(cstl_outvec *o, uint64_t k, cstl_opt v)
 {
@@ -108,6 +120,43 @@ static inline void cstl_outvec_emplace_back(cstl_outvec *o, uint64_t k, cstl_opt
 #endif
     o->size++;
 }
+
+/* the same for ut_set::find_range (vector<pair<K,bool>>) */
+typedef struct
+{
+    uint64_t      size;
+    uint64_t      reserved;
+    cstl_pair_kb  last;
+    cstl_pair_kb *sink;
+    uint64_t      sink_cap;
+} cstl_outvec_kb;
+#ifndef CSTL_CBMC
+cstl_pair_kb *cstl_native_sink_kb(void);
+#endif
+static inline void cstl_outvec_kb_ctor(cstl_outvec_kb *o)
+{
+    o->size = 0; o->reserved = 0; o->sink = 0; o->sink_cap = 0; o->last.first = 0; o->last.second = false;
+#ifndef CSTL_CBMC
+    o->sink = cstl_native_sink_kb(); o->sink_cap = cstl_native_sink_cap();
+#endif
+}
+static inline void cstl_outvec_kb_reserve(cstl_outvec_kb *o, uint64_t n) { if (n > o->reserved) o->reserved = n; }
+static inline void cstl_outvec_kb_emplace_back(cstl_outvec_kb *o, uint64_t k, bool v)
+{
+    o->last.first  = k;
+    o->last.second = v;
+#ifndef CSTL_CBMC
+    if (o->sink && o->size < o->sink_cap) o->sink[o->size] = o->last;
+#endif
+    o->size++;
+}
+
+/* std::iota / std::swap over vector<size_t> storage (rr_cache's open list) */
+static inline void cstl_iota_ptr(uint64_t *first, uint64_t *last, uint64_t v)
+{
+    for (; first != last; ++first, ++v) *first = v;
+}
+static inline void cstl_swap_u64(uint64_t *a, uint64_t *b) { uint64_t t = *a; *a = *b; *b = t; }
 
 /* ---- the random engine: any outcome in range -------------------------------------------------- */
 uint64_t cstl_rand_range(uint64_t a, uint64_t b); /* uniform_int_distribution<size_t>{a,b}(mt): requires a <= b */
